@@ -47,6 +47,37 @@ def run_roundtrip(chk: Check, recs: List[dict], pid: str = "C04") -> None:
             chk.undecided(f"{pid}.R1", f"{pid}.R1:{r['outcome']}", label, str(r.get("note")), where)
 
 
+def run_parser_shapes(chk: Check, prog: Program) -> None:
+    """The domain of R1 is a list of forms chosen by reading the parser; this clause takes the domain from the parser's
+    source: every tree shape the interpreted parser builds from up to five tokens, literals positive and negative."""
+    from sa.printcases import analyse_parser_shapes
+    chk.rule("C04.R5", "every tree shape the parser builds from up to 5 tokens prints to text that parses back to the same "
+             "value (shapes taken from the interpreted parser)", minimum=400)
+    where = "mathy_core/expressions.py:__str__ printers"
+    recs = analyse_parser_shapes(str(REPO))
+    chk.analysed["parser_shapes"] = len(recs)
+    for r in recs:
+        sh = r["forms"][0][2:]
+        sign = "negative literals" if r["forms"][0][1] == "-" else "positive literals"
+        label = f"{sh} ({sign}; the parser builds it from e.g. {r.get('parsed_from')!r}) prints {r.get('text')!r}"
+        if r["outcome"] == "equal":
+            chk.ok("C04.R5", "C04.R5", label, where=where)
+        elif r["outcome"] in ("differs", "differs-domain"):
+            chk.fail("C04.R5", f"C04.R5:{sh}", label,
+                     f"tree {r.get('tree')} = {r.get('orig_term')} prints as {r.get('text')!r}, which parses back as "
+                     f"{r.get('back_term')}", witness={"tree": r.get("tree"), "text": r.get("text"), "reparsed": r.get("back_term")},
+                     where=where)
+        elif r["outcome"] == "reparse-rejects":
+            chk.fail("C04.R5", f"C04.R5:{sh}:rejected", label,
+                     f"tree {r.get('tree')} prints as {r.get('text')!r}, which the parser rejects: {r.get('note')}",
+                     witness={"tree": r.get("tree"), "text": r.get("text")}, where=where)
+        elif r["outcome"] == "print-raises":
+            chk.fail("C04.R5", f"C04.R5:{sh}:print-raises:{r.get('exc')}", label, f"printing raises: {r.get('note')}",
+                     witness={"tree": r.get("tree")}, where=where)
+        else:
+            chk.undecided("C04.R5", f"C04.R5:{r['outcome']}:{sh}", label, str(r.get("note")), where)
+
+
 def run_number_text(chk: Check, prog: Program) -> None:
     chk.rule("C04.R4", "constant printer: int() for integral values, positional formatter otherwise", minimum=2)
     m = prog.find_method("ConstantExpression", "name")
@@ -108,6 +139,7 @@ def run(chk: Check) -> None:
     recs = analyse_printer(str(REPO), tier=chk.tier)
     chk.analysed["shapes"] = len(recs)
     run_roundtrip(chk, recs)
+    run_parser_shapes(chk, prog)
     run_number_text(chk, prog)
     # contracts of other parts of the library this check takes for granted (summaries, token model, reference grammar):
     # the clauses that check the source against them, replayed under this property (props/contracts.py)
